@@ -114,6 +114,9 @@ func cmdCheck(args []string) int {
 		fmt.Fprintln(os.Stderr, "gocv:", err)
 		return 2
 	}
+	if *prop == "C17" {
+		return checkSweep(*prop, *tier, *repo, cs, seed, *out, *noEvidence, t0)
+	}
 	r := runProperty(*prop, *tier, *repo, cs, timeout, *verbose)
 	r.wall = time.Since(t0).Seconds()
 	code := r.report(*prop, *tier, seed, *out, *noEvidence)
@@ -506,4 +509,106 @@ func hasGlobalInv(cs *Contracts, pkg string) bool {
 		}
 	}
 	return false
+}
+
+func checkSweep(prop, tier, repo string, cs *Contracts, seed int, evPath string, noEvidence bool, t0 time.Time) int {
+	obls, genErrs, nfuncs, asmFiles, asmLines, asmBad := runSweep(repo, cs)
+	findings := loadFindings(filepath.Join(verifDir, "known_findings.txt"))
+	replayDir := filepath.Join(verifDir, "replays", prop)
+	total, ok := 0, 0
+	violations, known := 0, 0
+	byKind := map[string]int{}
+	var samples []interface{}
+	for _, o := range obls {
+		total++
+		byKind[o.Kind]++
+		if o.OK {
+			ok++
+			if len(samples) < 6 && (o.Kind == "arg" || o.Kind == "copy" || total%97 == 0) {
+				samples = append(samples, map[string]interface{}{"obligation": o.Name, "position": o.Pos, "status": "discharged (provenance analysis)"})
+			}
+			continue
+		}
+		isKnown := false
+		for _, f := range findings {
+			if f.kind == "finding" && f.prop == prop && f.obl != "" && strings.Contains(o.Name, f.obl) {
+				fmt.Printf("KNOWN-FINDING: property=%s %s\n", prop, f.text)
+				isKnown = true
+				known++
+				break
+			}
+		}
+		if isKnown {
+			continue
+		}
+		violations++
+		os.MkdirAll(replayDir, 0o755)
+		path := filepath.Join(replayDir, sanitizeFile(o.Name)+".json")
+		writeJSON(path, map[string]interface{}{"property": prop, "obligation": o.Name, "kind": o.Kind, "position": o.Pos, "configuration": o.Cfg, "explanation": o.Detail})
+		fmt.Printf("VIOLATION property=%s replay=%s no-failing-input-found\n", prop, path)
+	}
+	for i, b := range asmBad {
+		violations++
+		os.MkdirAll(replayDir, 0o755)
+		path := filepath.Join(replayDir, fmt.Sprintf("asm-sb-destination-%d.json", i+1))
+		writeJSON(path, map[string]interface{}{"property": prop, "obligation": "asm-no-sb-destination", "explanation": b})
+		fmt.Printf("VIOLATION property=%s replay=%s no-failing-input-found\n", prop, path)
+	}
+	for i, e := range genErrs {
+		violations++
+		os.MkdirAll(replayDir, 0o755)
+		path := filepath.Join(replayDir, fmt.Sprintf("generation-error-%d.json", i+1))
+		writeJSON(path, map[string]interface{}{"property": prop, "obligation": "generation", "explanation": e})
+		fmt.Printf("VIOLATION property=%s replay=%s no-failing-input-found\n", prop, path)
+	}
+	if total == 0 {
+		violations++
+		fmt.Printf("VIOLATION property=%s replay=none(no obligations generated) no-failing-input-found\n", prop)
+	}
+	wall := time.Since(t0).Seconds()
+	if len(samples) == 0 && len(obls) > 0 {
+		samples = append(samples, map[string]interface{}{"obligation": obls[0].Name, "position": obls[0].Pos})
+	}
+	cov := map[string]interface{}{
+		"obligations":              total + 1,
+		"discharged":               ok + btoi(len(asmBad) == 0),
+		"checker_cmd":              fmt.Sprintf("/verif/bin/gocv check --prop %s --tier %s", prop, tier),
+		"trusted_base":             []string{"gocv provenance sweep (/verif/gocv/sweep.go)", "golang.org/x/tools/go/ssa v0.29.0", "go/types"},
+		"functions_swept":          nfuncs,
+		"obligations_by_kind":      byKind,
+		"assembly_files_scanned":   asmFiles,
+		"assembly_instructions":    asmLines,
+		"assembly_sb_destinations": len(asmBad),
+		"known_failing":            known,
+		"samples":                  samples,
+		"explanation":              "zero-annotation frame/provenance obligations over every function of the module in both build configurations: one obligation per store, copy/append destination, escaping reference, returned reference and reference argument; each is discharged when the written or escaping reference provably does not derive from a package-level variable (or the callee provably neither writes nor keeps it); plus one obligation for the textual scan of assembly files for (SB) destinations. Decided by a dataflow analysis over go/ssa, not by an SMT solver.",
+	}
+	ev := evidence{PropertyID: prop, Tier: tier, Seed: seed, Level: "proof", Coverage: cov, WallS: round3(wall), Violations: violations,
+		Assumptions: []string{
+			"sufficient condition only: instances that share no mutable state and do not write package-level state cannot interfere; determinism of each instance and the absence of goroutines inside the library are part of the swept facts; the composition to 'same bytes and errors as when run alone' and to race-freedom is a paper argument",
+			"standard-library dependencies (bufio, hash/crc32 tables, hash/adler32, compress/flate) are assumed not to share mutable state between instances",
+			"assembly routines are only scanned textually for data-symbol destinations; that they write only through their pointer arguments is assumed",
+			"external functions on the read-only allowlist (crc32.Update, binary.*Endian.UintNN, ...) are assumed not to write through their arguments",
+			"trusted base: the provenance analysis itself (sweep.go), go/ssa, go/types",
+		}}
+	if !noEvidence {
+		if evPath == "" {
+			evPath = filepath.Join(verifDir, "evidence", prop+".json")
+		}
+		os.MkdirAll(filepath.Dir(evPath), 0o755)
+		writeJSON(evPath, ev)
+	}
+	fmt.Printf("gocv: property %s tier %s: %d sweep obligations over %d functions, %d discharged, %d violations (%d known), assembly: %d files %d instructions %d (SB) destinations, %.1fs\n",
+		prop, tier, total, nfuncs, ok, violations, known, asmFiles, asmLines, len(asmBad), wall)
+	if violations > 0 {
+		return 1
+	}
+	return 0
+}
+
+func btoi(b bool) int {
+	if b {
+		return 1
+	}
+	return 0
 }
